@@ -2,6 +2,7 @@ package main
 
 import (
 	"fmt"
+	"math"
 	"math/big"
 	"sort"
 	"strings"
@@ -116,6 +117,14 @@ func c03Pool(thorough bool) []cty.Value {
 		pool = append(pool, cty.StringVal(s))
 	}
 	pool = append(pool, structPool(thorough)...)
+	// different whole numbers whose shortest decimal texts coincide at their
+	// own precisions, and the same whole number at two precisions
+	pool = append(pool,
+		cty.NumberFloatVal(1e30), parseNum("1000000000000000019884624838656"), cty.NumberFloatVal(9223372036854775808), cty.NumberUIntVal(1<<63),
+		cty.NumberFloatVal(math.MaxFloat32), parseNum("340282346638528860000000000000000000000"), parseNum("340282346638528859811704183484516925440"),
+		cty.NumberFloatVal(1e22), parseNum("1e22"), cty.NumberFloatVal(1e23), parseNum("1e23"), parseNum("99999999999999991611392"),
+		cty.NumberFloatVal(math.Copysign(0, -1)), cty.Zero.Negate(), parseNum("-0"),
+	)
 	// structures wrapping the delicate numbers
 	delicate := []cty.Value{
 		cty.NumberFloatVal(0.1), parseNum("0.1"), cty.NumberFloatVal(0.12345678905), parseNum("0.12345678905"),
@@ -143,7 +152,49 @@ func hashOf(v cty.Value) (h int, ok bool) {
 	return v.Hash(), true
 }
 
+// c03Strings: string values are equal exactly when their sources are
+// canonically equivalent (NFC), including equivalences that involve no
+// combining mark; equal ones hash alike and cannot both be set members.
+func c03Strings(c *Ctx) {
+	srcs := []string{
+		"", "a", "A", "\u00c5", "\u212b", "A\u030a", "\u03a9", "\u2126", "\uac00", "\u1100\u1161", "\uac01", "\uac00\u11a8", "\u1100\u1161\u11a8",
+		"\u8c48", "\uf900", "\u0308\u0301", "\u0344", "q\u0307\u0323", "q\u0323\u0307", "\u1e0b\u0323", "\u1e0d\u0307", "e\u0301", "\u00e9", "\u212a", "K",
+		"\u00c5b", "\u212bb", "x\uf900", "x\u8c48",
+	}
+	c.Unit(func(u *U) {
+		for _, s1 := range srcs {
+			for _, s2 := range srcs {
+				u.Eval(1)
+				u.Distinct("nfc" + s1 + "|" + s2)
+				a, b := cty.StringVal(s1), cty.StringVal(s2)
+				want := nfc(s1) == nfc(s2)
+				desc := fmt.Sprintf("StringVal(%+q) vs StringVal(%+q)", s1, s2)
+				if got := a.RawEquals(b); got != want {
+					u.Violation("String.rawequals-vs-canonical-equivalence", "str ; str", fmt.Sprintf("%s: RawEquals = %v, canonically equivalent = %v", desc, got, want))
+					continue
+				}
+				if got := a.Equals(b); !got.IsKnown() || got.True() != want {
+					u.Violation("String.equals-vs-canonical-equivalence", "str ; str", fmt.Sprintf("%s: Equals = %s, canonically equivalent = %v", desc, goStr(got), want))
+				}
+				ha, ok1 := hashOf(a)
+				hb, ok2 := hashOf(b)
+				if want && ok1 && ok2 && ha != hb {
+					u.Violation("Hash.equal-values-differ", "str ; str", fmt.Sprintf("%s are equal but hash to %d and %d", desc, ha, hb))
+				}
+				if n := cty.SetVal([]cty.Value{a, b}).LengthInt(); (n == 1) != want {
+					u.Violation("Set.holds-equal-strings", "str ; str", fmt.Sprintf("SetVal(%+q, %+q) has %d members, canonically equivalent = %v", s1, s2, n, want))
+				}
+				m := cty.MapVal(map[string]cty.Value{s1: cty.True})
+				if has := m.HasIndex(b); !has.IsKnown() || has.True() != want {
+					u.Violation("Map.key-vs-canonical-equivalence", "str ; str", fmt.Sprintf("MapVal{%+q:..}.HasIndex(%+q) = %s, canonically equivalent = %v", s1, s2, goStr(has), want))
+				}
+			}
+		}
+	})
+}
+
 func runC03(c *Ctx) {
+	c03Strings(c)
 	pool := c03Pool(c.Thorough)
 	canon := make([]string, len(pool))
 	for i, v := range pool {
